@@ -158,7 +158,7 @@ def transitive_reads(f, fn, seen=None):
 def d1(rep, f, c):
     queries = [n for n, b in f.bodies.items()
                if b.raw.get('impl_self') in ('Decoder', 'Encoder') and b.raw.get('pub') and n.rsplit('::', 1)[-1].startswith('max_')]
-    rep.floor('C07-D1', 'public queries', len(queries), 7, c)
+    rep.floor('C07-D1', 'public queries', len(queries), 7, c, exact=True)
     viol = []
 
     def on_violation(b, bi, kind, detail):
@@ -265,7 +265,7 @@ def d3(rep, f, c):
             rep.ob('C07-D3.state', '%s::%s' % (ty, q), not miss,
                    'decoder state field(s) %r are written by the decode bodies but not consulted by this query' % miss,
                    sp_str(qb.raw['span']), {'written': sorted(w), 'read': sorted(rd)}, c)
-    rep.floor('C07-D3.state', 'variant decoders', nd, 11, c)
+    rep.floor('C07-D3.state', 'variant decoders', nd, 11, c, exact=True)
     # life-cycle arms of the three Decoder queries
     lc = f.adts.get('DecoderLifeCycle')
     states = {v['name'] for v in lc['variants']} if lc else set()
